@@ -343,6 +343,12 @@ class HistoryRunner:
             self.do_cmd("ifchange", list(self.m.targets), "")
         finally:
             self._recovering = False
+        last = self.out.log[-1] if self.out.log else {}
+        if last.get("rc", 0) != 0 and not self.out.diverged:
+            # the recovery stopped at a failing script (as it should): what the killed run had already finished
+            # further down the list was never visited, so binary and model no longer describe the same state
+            self.out.diverged = "crash-recovery-incomplete"
+            self.out.events["crash:recovery-stopped-at-a-failing-script(case ends)"] += 1
 
     def do_cmd(self, kind, targets, cwd):
         m, disk = self.m, self.disk
